@@ -12,6 +12,8 @@ import Ipv8.C13.TableJ
 import Ipv8.C13.TableK
 import Ipv8.C13.TableL
 import Ipv8.C13.TableM
+import Ipv8.C13.TableN
+import Ipv8.C13.TableO
 
 namespace Ipv8.C13
 
